@@ -71,7 +71,7 @@ def add_canaries(asm_hook_files):
             fc.canaries.append(name)
 
 
-def assemble_crate(cfg_features):
+def assemble_crate(cfg_features, force_external=()):
     spec = open(os.path.join(ROOT, 'spec', 'prelude.rs')).read()
     for extra in sorted(os.listdir(os.path.join(ROOT, 'spec'))):
         if extra.endswith('.rs') and extra != 'prelude.rs':
@@ -81,7 +81,18 @@ def assemble_crate(cfg_features):
 
     def apply(relpath, fc):
         fc.canaries = []
+        fc.force_external = set(force_external)
         registry.apply(relpath, fc, cfg_features)
+        # functions without a contract entry whose body is outside Verus's subset
+        for q in force_external:
+            if q.startswith(relpath + '::') and q not in [c['q'] for c in fc.contracted]:
+                parts = q[len(relpath) + 2:].rsplit('::', 1)
+                within, name = (parts[0], parts[1]) if len(parts) == 2 else (None, parts[0])
+                try:
+                    fc.contract(name, within=within, external_body=True)
+                    fc.auto_external.append(q)
+                except Exception:
+                    pass
         files[relpath] = fc
         add_canaries({relpath: fc})
 
@@ -105,20 +116,45 @@ def run_v(features, work, rlimit=100):
     """assemble + verify; returns VResult with obligations and failures, property-independent"""
     r = VResult()
     t0 = time.time()
-    try:
-        asm = assemble_crate(features)
-    except LostAnchor as e:
-        raise Undecided('lost anchor: %s' % e)
-    r.asm = asm
     if not vrun.build_shim(work, log):
         raise Undecided('contract shim crate does not verify/compile')
     cfgs = ['feature="%s"' % f for f in features]
-    d = vrun.run_verus(work, asm.text, cfgs, log, rlimit=rlimit, cache_dir=CACHE)
-    r.raw = d
-    if d['json'] is None:
-        # extraction no longer type-checks / unsupported construct / tool crash
-        raise Undecided('verus produced no result (type error, unsupported construct or crash):\n' + (d['stderr'] or d.get('stdout', ''))[-3000:])
-    res = d['json'].get('verification-results', {})
+    forced = set()
+    for attempt in range(6):
+        try:
+            asm = assemble_crate(features, forced)
+        except LostAnchor as e:
+            raise Undecided('lost anchor: %s' % e)
+        r.asm = asm
+        d = vrun.run_verus(work, asm.text, cfgs, log, rlimit=rlimit, cache_dir=CACHE)
+        r.raw = d
+        if d['json'] is None:
+            raise Undecided('verus produced no result (type error, unsupported construct or crash):\n' + (d['stderr'] or d.get('stdout', ''))[-3000:])
+        res = d['json'].get('verification-results', {})
+        unsupported = res.get('encountered-vir-error') or re.search(r'^error: .*(not supported|does not yet support|not yet supported)', d['stderr'], re.M)
+        if unsupported and res.get('verified', 0) == 0:
+            # a construct outside Verus's subset: skip the body of the function that contains it (its contract stays, assumed),
+            # decide everything else; the properties that function carries are reported undecided
+            idx0 = vrun.FnIndex(asm.text, asm.linemap)
+            new = set()
+            for e in vrun.parse_errors(d['stderr'], idx0):
+                if e['line'] and e['fn'][2] and ('not supported' in e['kind'] or 'not yet support' in e['kind'] or 'does not yet support' in e['kind']):
+                    rel, hdr, name = e['fn']
+                    within = None
+                    if hdr:
+                        # use the same `within` the contract used, if there is one
+                        for c in asm.contracted:
+                            if c['relpath'] == rel and c['name'] == name and c['within'] and c['within'] in hdr:
+                                within = c['within']
+                        within = within or hdr
+                    new.add('%s::%s%s' % (rel, (within + '::') if within else '', name))
+            new -= forced
+            if new:
+                log('outside Verus subset, body skipped: %s' % ', '.join(sorted(new)))
+                forced |= new
+                continue
+            raise Undecided('verus VIR error (unsupported construct):\n' + d['stderr'][-3000:])
+        break
     if res.get('encountered-vir-error'):
         raise Undecided('verus VIR error (unsupported construct):\n' + d['stderr'][-3000:])
     if re.search(r'^error\[E\d+\]', d['stderr'], re.M) or (res.get('encountered-error') and res.get('verified', 0) == 0 and res.get('errors', 0) == 0):
@@ -231,8 +267,24 @@ def evaluate(r, prop, known):
             return []
         body = fc.text[f.body_open:f.body_close] if f.body_open >= 0 else ''
         return sorted(n for n in uncontracted if re.search(r'\b%s\s*(::<[^>]*>)?\(' % re.escape(n), body))
+    # anchors that no longer exist: undecided for the properties that function carries (and only for those)
+    by_q = dict((c['q'], c) for c in asm.contracted)
+    lost_fns = set()
+    for L in asm.lost:
+        tags = set(L['tags']) | set(t for x in L['ensures'] for t in clause_tags(x, L['tags']))
+        c0 = by_q.get(L['q'])
+        if c0 is not None:
+            lost_fns.add(fn_key(c0))
+            tags |= set(c0['tags']) | set(t for x in c0['ensures'] for t in clause_tags(x, c0['tags']))
+        if prop in tags or prop == 'C01' or not tags:
+            undecided.append('lost anchor in %s: %s' % (L['q'], L['why'][:200]))
     for c in asm.contracted:
         cl = [(x, clause_tags(x, c['tags'])) for x in c['ensures']]
+        if c['q'] in asm.auto_external:
+            tg = set(c['tags']) | {'C01'} | set(t for (_x, ts) in cl for t in ts)
+            if prop in tg:
+                undecided.append('%s: body uses a construct outside Verus\'s subset (contract assumed, not proved)' % c['q'])
+            continue
         # a body-level failure (violated callee precondition, overflow, ..) concerns every property the function carries
         fn_tags = set(c['tags']) | {'C01'} | set(t for (_x, ts) in cl for t in ts if t.startswith('C'))
         my_clauses = [x for (x, t) in cl if prop in t]
@@ -256,6 +308,9 @@ def evaluate(r, prop, known):
             obligations.append((q + ':ensures:' + x, x))
         unk = calls_uncontracted(c) if errs else []
         for e in errs:
+            if fn_key(c) in lost_fns and e['status'] == 'refuted':
+                undecided.append('%s: fails to verify, but one of its ghost annotations lost its anchor' % q)
+                continue
             if unk and e['status'] == 'refuted':
                 undecided.append('%s: fails to verify but calls function(s) without a contract (%s): cannot tell a violation from a missing contract' % (q, ', '.join(unk)))
                 continue
